@@ -26,6 +26,7 @@ def stmtOk (l : Leaf) : Stmt → Bool
   | .ret n e _ => (match fixedWidth l with | some k => n == k && encOk l k e | none => false)
   | .cstr => (match l with | .cstring => true | _ => false)
   | .scstr => (match l with | .sizedCString => true | _ => false)
+  | .str => (match l with | .string => true | _ => false)
   | .pguid => (match l with | .packedGuid => true | _ => false)
   | _ => false
 
@@ -223,6 +224,33 @@ theorem stmt_leaf (ctx : Ctx) (l : Leaf) (s : Stmt) (v : Val) (b r : Bytes) (st 
           have hlen : (hb ++ sv ++ [0]).length = 4 + (sv.length + 1) := by simp [hlen4]
           refine ⟨{ st with rest := r, trace := (4 + (sv.length + 1), .na) :: st.trace }, .na, ?_, rfl, by rw [hlen], by simp [entryEq, encOf]⟩
           simp only [runStmt, hge, if_true, htake, hval, take_exact (4 + (sv.length + 1)) .na st (hb ++ sv ++ [0]) r hr hlen, Except.map]
+    | nat _ => simp [encLeaf] at he
+    | tuple _ => simp [encLeaf] at he
+    | list _ => simp [encLeaf] at he
+    | none => simp [encLeaf] at he
+  | str =>
+    cases l <;> simp [stmtOk] at hs
+    cases v with
+    | bytes sv =>
+      simp only [encLeaf] at he
+      cases hh : encInt 1 .le sv.length with
+      | none => simp [hh] at he
+      | some hb =>
+        simp only [hh, Option.map_some, Option.some.injEq] at he
+        subst he
+        have hlen1 := encInt_len 1 .le _ hb hh
+        have hval : decLE hb = sv.length := by
+          unfold encInt at hh
+          split at hh
+          · rename_i hlt
+            injection hh with hh; subst hh
+            exact decLE_encLE 1 _ hlt
+          · cases hh
+        have htake : st.rest.take 1 = hb := by rw [hr, ← hlen1]; simp
+        have hge : 1 ≤ st.rest.length := by rw [hr]; simp; omega
+        have hlen : (hb ++ sv).length = 1 + sv.length := by simp [hlen1]
+        refine ⟨{ st with rest := r, trace := (1 + sv.length, .na) :: st.trace }, .na, ?_, rfl, by rw [hlen], by simp [entryEq, encOf]⟩
+        simp only [runStmt, hge, if_true, htake, hval, take_exact (1 + sv.length) .na st (hb ++ sv) r hr hlen, Except.map]
     | nat _ => simp [encLeaf] at he
     | tuple _ => simp [encLeaf] at he
     | list _ => simp [encLeaf] at he
